@@ -26,6 +26,7 @@ Inductive expr :=
   | XCell (k : Z) (lab : list Z)
   | XRange (k1 : Z) (l1 : list Z) (k2 : Z) (l2 : list Z)
   | XCall (sep : sepkind) (name : list Z) (args : list expr)   (* sep: the separator written between the arguments *)
+  | XArr (sep : sepkind) (items : list expr)        (* flat array literal { e1 SEP e2 SEP ... } *)
   | XNeg (e : expr)
   | XBin (b : binop) (l r : expr)
   | XPar (e : expr).
@@ -43,6 +44,7 @@ Section ExprInd.
   Hypothesis HCell : forall k l, P (XCell k l).
   Hypothesis HRange : forall k1 l1 k2 l2, P (XRange k1 l1 k2 l2).
   Hypothesis HCall : forall sep n args, Forall P args -> P (XCall sep n args).
+  Hypothesis HArr : forall sep items, Forall P items -> P (XArr sep items).
   Hypothesis HNeg : forall e, P e -> P (XNeg e).
   Hypothesis HBin : forall b l r, P l -> P r -> P (XBin b l r).
   Hypothesis HPar : forall e, P e -> P (XPar e).
@@ -52,6 +54,8 @@ Section ExprInd.
     | XStr s => HStr s | XErr s => HErr s | XVar n => HVar n | XCell k l => HCell k l | XRange k1 l1 k2 l2 => HRange k1 l1 k2 l2
     | XCall sep n args => HCall sep n args ((fix go (l : list expr) : Forall P l :=
                         match l with [] => Forall_nil P | a :: r => Forall_cons a (expr_ind' a) (go r) end) args)
+    | XArr sep items => HArr sep items ((fix go (l : list expr) : Forall P l :=
+                        match l with [] => Forall_nil P | a :: r => Forall_cons a (expr_ind' a) (go r) end) items)
     | XNeg e => HNeg e (expr_ind' e)
     | XBin b l r => HBin b l r (expr_ind' l) (expr_ind' r)
     | XPar e => HPar e (expr_ind' e)
@@ -77,6 +81,7 @@ Fixpoint xtoks (e : expr) : list token :=
   | XCell k l => [Tok k l]
   | XRange k1 l1 k2 l2 => [Tok k1 l1; Tok T_COLON [58]; Tok k2 l2]
   | XCall sp n args => Tok T_FUNCTION n :: Tok T_LPAREN [40] :: args_toks sp xtoks args ++ [Tok T_RPAREN [41]]
+  | XArr sp items => Tok T_LBRACKET [123] :: args_toks sp xtoks items ++ [Tok T_RBRACKET [125]]
   | XNeg e => Tok T_MINUS [45] :: xtoks e
   | XBin b l r => xtoks l ++ Tok (op_term b) (op_lexeme b) :: xtoks r
   | XPar e => Tok T_LPAREN [40] :: xtoks e ++ [Tok T_RPAREN [41]]
@@ -110,6 +115,7 @@ Fixpoint xval (h : host) (e : expr) : evres value :=
   | XCell _ l => call_cell_value h l
   | XRange _ a _ b => call_range_value h a b
   | XCall _ n args => ebind (xvals (xval h) args) (fun vs => call_function h n vs)
+  | XArr _ items => ebind (xvals (xval h) items) (fun vs => (ROk (VList vs), []))
   | XNeg e => ebind (xval h e) (fun v => (of_outcome (eval_neg v), []))
   | XBin b l r => ebind (xval h l) (fun lv => ebind (xval h r) (fun rv => (bin_res b lv rv, [])))
   | XPar e => xval h e
@@ -125,6 +131,7 @@ Fixpoint xwp (e : expr) : Prop :=
   | XCell k _ => In k cell_kinds
   | XRange k1 _ k2 _ => In k1 cell_kinds /\ In k2 cell_kinds
   | XCall _ _ args => (fix all (l : list expr) : Prop := match l with [] => True | a :: r => xwp a /\ all r end) args
+  | XArr _ items => match items with [] => False | _ => (fix all (l : list expr) : Prop := match l with [] => True | a :: r => xwp a /\ all r end) items end
   | XPar e => xwp e
   | XNeg e => xwp e /\ xtop e = None
   | XBin b l r => xwp l /\ xwp r
@@ -169,6 +176,23 @@ Definition qC (sp : sepkind) : Z := goto_target (sC sp).
 Definition iSeqCC (sp : sepkind) : Z := reduce_target (qC sp) (sep_term sp).   (* expseqX : expseqX SEP expression *)
 Definition sCR (sp : sepkind) : Z := shift_target (qSC sp) T_RPAREN.
 Definition iCallN (sp : sepkind) : Z := reduce_target (sCR sp) 0.
+(* array literals: the same sequence machinery after "{" *)
+Definition sB : Z := shift_target 0 T_LBRACKET.
+Definition bA1 : Z := goto_target sB.
+Definition bSeq1 : Z := reduce_target bA1 T_RBRACKET.
+Definition bnSeq1 : Z := prod_lhs bSeq1.
+Definition bqSeq1 : Z := goto_nt sB bnSeq1.
+Definition bClose1 : Z := shift_target bqSeq1 T_RBRACKET.
+Definition bArr1 : Z := reduce_target bClose1 0.
+Definition bSeqC (sp : sepkind) : Z := reduce_target bA1 (sep_term sp).
+Definition bqSC (sp : sepkind) : Z := goto_nt sB (sep_nt sp).
+Definition bsC (sp : sepkind) : Z := shift_target (bqSC sp) (sep_term sp).
+Definition bqC (sp : sepkind) : Z := goto_target (bsC sp).
+Definition bSeqCC (sp : sepkind) : Z := reduce_target (bqC sp) (sep_term sp).
+Definition bCloseN (sp : sepkind) : Z := shift_target (bqSC sp) T_RBRACKET.
+Definition bArrN (sp : sepkind) : Z := reduce_target (bCloseN sp) 0.
+Definition qArr : Z := goto_nt 0 N_array.
+Definition iArrE : Z := reduce_target qArr 0.
 (* literals: STRING, XLERROR, and the composite number forms *)
 Definition sS : Z := shift_target 0 T_STRING.
 Definition iS : Z := reduce_target sS 0.
@@ -310,6 +334,35 @@ Lemma F_lit_closed :
   prod_of iDec = Some (E, 3, 5, [T_NUMBER; T_DECIMAL; T_NUMBER]) /\ prod_of iPct = Some (E, 2, 5, [T_NUMBER; T_PERCENT]) /\
   prod_of iPow = Some (E, 3, 5, [T_NUMBER; T_CARET; T_NUMBER]) /\ prod_of iFrac = Some (E, 2, 5, [T_DECIMAL; T_NUMBER]).
 Proof. repeat split; vm_compute; reflexivity. Qed.
+Lemma F_arr_es s : ES s -> act_of s T_LBRACKET = Some (Shift sB) /\ goto_of s N_array = Some qArr.
+Proof. intros H.
+  assert (forallb (fun s => act_eqb (act_of s T_LBRACKET) (Some (Shift sB)) && (goto_nt s N_array =? qArr)) es_list = true) as K by (vm_compute; reflexivity).
+  by_es K s H. apply andb_prop in K. destruct K as [K1 K2]. split; [apply act_eqb_eq, K1|apply goto_nt_some; [exact K2|vm_compute; reflexivity]]. Qed.
+Lemma F_arr_red sp k : follow k ->
+  act_of bClose1 k = Some (Reduce bArr1) /\ act_of (bCloseN sp) k = Some (Reduce (bArrN sp)) /\ act_of qArr k = Some (Reduce iArrE).
+Proof. intros H.
+  assert (forallb (fun k => act_eqb (act_of bClose1 k) (Some (Reduce bArr1)) && act_eqb (act_of (bCloseN sp) k) (Some (Reduce (bArrN sp))) &&
+                            act_eqb (act_of qArr k) (Some (Reduce iArrE))) follow_list = true) as K by (destruct sp; vm_compute; reflexivity).
+  by_follow K k H. apply andb_prop in K. destruct K as [K K3]. apply andb_prop in K. destruct K as [K1 K2].
+  repeat split; apply act_eqb_eq; assumption. Qed.
+Definition bfSeq1 : Z := match prod_of bSeq1 with Some (_, _, f, _) => f | None => 0 end.
+Lemma F_arr :
+  ES sB /\ ctx bA1 = None /\ goto_E sB = Some bA1 /\ act_of bA1 T_RBRACKET = Some (Reduce bSeq1) /\
+  prod_of bSeq1 = Some (bnSeq1, 1, bfSeq1, [- E]) /\ seq_fn bfSeq1 = true /\ goto_of sB bnSeq1 = Some bqSeq1 /\
+  act_of bqSeq1 T_RBRACKET = Some (Shift bClose1) /\ prod_of bArr1 = Some (N_array, 3, 10, [T_LBRACKET; - bnSeq1; T_RBRACKET]) /\
+  prod_of iArrE = Some (E, 1, 9, [- N_array]) /\ term T_RBRACKET.
+Proof.
+  split; [apply existsb_eqb_in; vm_compute; reflexivity|]. repeat split; try (vm_compute; reflexivity). unfold term, terminators; cbn; tauto.
+Qed.
+Lemma F_arr_sep sp :
+  ES (bsC sp) /\ ctx (bqC sp) = None /\ act_of bA1 (sep_term sp) = Some (Reduce (bSeqC sp)) /\
+  goto_of sB (sep_nt sp) = Some (bqSC sp) /\ act_of (bqSC sp) (sep_term sp) = Some (Shift (bsC sp)) /\
+  act_of (bqC sp) (sep_term sp) = Some (Reduce (bSeqCC sp)) /\ act_of (bqC sp) T_RBRACKET = Some (Reduce (bSeqCC sp)) /\
+  act_of (bqSC sp) T_RBRACKET = Some (Shift (bCloseN sp)) /\ goto_E (bsC sp) = Some (bqC sp) /\
+  prod_of (bSeqC sp) = Some (sep_nt sp, 1, sep_fn sp, [- E]) /\
+  prod_of (bSeqCC sp) = Some (sep_nt sp, 3, sep_fn sp, [- sep_nt sp; sep_term sp; - E]) /\
+  prod_of (bArrN sp) = Some (N_array, 3, 10, [T_LBRACKET; - sep_nt sp; T_RBRACKET]).
+Proof. destruct sp; (split; [apply existsb_eqb_in; vm_compute; reflexivity|]); repeat split; vm_compute; reflexivity. Qed.
 Lemma prod_eqb_eq p l n f r : prod_eqb p l n f r = true -> prod_of p = Some (l, n, f, r).
 Proof.
   unfold prod_eqb. destruct (prod_of p) as [[[[l' n'] f'] r']|]; [|discriminate]. intros H.
@@ -451,6 +504,7 @@ Fixpoint xsteps (e : expr) : nat :=
   | XNum _ => 2 | XVar _ => 3 | XCell _ _ => 3 | XRange _ _ _ _ => 5
   | XDec _ _ => 4 | XFrac _ => 3 | XPct _ => 3 | XPowLit _ _ => 4 | XStr _ => 2 | XErr _ => 2
   | XCall _ _ args => (4 + sum_with xsteps args)%nat
+  | XArr _ items => (5 + sum_with xsteps items)%nat
   | XNeg e => (2 + xsteps e)%nat
   | XBin _ l r => (xsteps l + xsteps r + 2)%nat
   | XPar e => (xsteps e + 3)%nat
@@ -477,6 +531,46 @@ Lemma sum_with_cons f a r : sum_with f (a :: r) = (f a + 2 + sum_with f r)%nat. 
 (* the arguments after the first: "," expression, repeatedly *)
 Lemma seq_action_3 h sp l v : sem_action h (sep_fn sp) [- sep_nt sp; sep_term sp; - E] [SVseq l; SVtok (sep_lex sp); SVval v] = (ROk (SVseq (l ++ [v])), []).
 Proof. destruct sp; reflexivity. Qed.
+Section SeqLoop.
+  Variables (h : host) (sp : sepkind) (s0 qS sS qE iSS : Z) (closeTok : token).
+  Hypothesis HESS : ES sS.
+  Hypothesis HctxE : ctx qE = None.
+  Hypothesis HgoS : goto_of s0 (sep_nt sp) = Some qS.
+  Hypothesis Hsh : act_of qS (sep_term sp) = Some (Shift sS).
+  Hypothesis Hr1 : act_of qE (sep_term sp) = Some (Reduce iSS).
+  Hypothesis Hr2 : act_of qE (tk closeTok) = Some (Reduce iSS).
+  Hypothesis HgoE : goto_E sS = Some qE.
+  Hypothesis PSS : prod_of iSS = Some (sep_nt sp, 3, sep_fn sp, [- sep_nt sp; sep_term sp; - E]).
+  Hypothesis Hterm : term (sep_term sp).
+  Hypothesis Hclose : term (tk closeTok).
+  Lemma seq_loop st0 rest : top_state st0 = s0 -> forall l, Forall (expr_spec h) l -> all_wp l -> forall vs0,
+    reachle h (sum_with xsteps l) ((qS, SVseq vs0) :: st0, seq_toks sp xtoks l ++ closeTok :: rest)
+      (snd (xvals (xval h) l))
+      (tgt (fun ws => ((qS, SVseq (vs0 ++ ws)) :: st0, closeTok :: rest)) (fst (xvals (xval h) l))).
+  Proof.
+    intros Htop. induction l as [|b l IH]; intros HF Hwp vs0.
+    - change (seq_toks sp xtoks []) with (@nil token). change (xvals (xval h) []) with (@ROk (list value) [], @nil event).
+      cbn [fst snd tgt app]. rewrite app_nil_r. apply rl_here.
+    - inversion HF as [|? ? Hb HF']; subst. destruct Hwp as [Hwb Hwl].
+      rewrite seq_toks_cons, xvals_cons, sum_with_cons. cbn [app]. rewrite <- app_assoc.
+      eapply rl_weaken with (N := S (xsteps b + (1 + sum_with xsteps l))); [lia|].
+      eapply rl_shift; [exact Hsh|]. cbn [lexeme sep_tok].
+      eapply (rl_bind h (xval h b) _ _ (fun w => ((qE, SVval w) :: (sS, SVtok (sep_lex sp)) :: (qS, SVseq vs0) :: st0, seq_toks sp xtoks l ++ closeTok :: rest))).
+      + apply Hb; cbn [top_state]; auto.
+        * unfold xenter_ok, enters. rewrite HctxE. destruct (xtop b); exact I.
+        * left. destruct l; [|rewrite seq_toks_cons]; cbn [app la tk sep_tok]; [exact Hclose|exact Hterm].
+      + intros w _.
+        assert (act_of qE (la (seq_toks sp xtoks l ++ closeTok :: rest)) = Some (Reduce iSS)) as Hact
+          by (destruct l; [|rewrite seq_toks_cons]; cbn [app la tk sep_tok]; assumption).
+        eapply rl_pure; [exact Hact|exact PSS|apply pop3|apply seq_action_3|first [exact HgoS|rewrite Htop; exact HgoS]|].
+        eapply rl_weaken with (N := (sum_with xsteps l + 0)%nat); [lia|].
+        eapply (rl_bind h (xvals (xval h) l) (fun vs => (ROk (w :: vs), [])) _
+                  (fun ws => ((qS, SVseq ((vs0 ++ [w]) ++ ws)) :: st0, closeTok :: rest))
+                  (fun ws => ((qS, SVseq (vs0 ++ ws)) :: st0, closeTok :: rest)) _ 0).
+        * apply IH; assumption.
+        * intros ws _. cbn [fst snd tgt]. rewrite <- app_assoc. cbn [app]. apply rl_here.
+  Qed.
+End SeqLoop.
 Lemma args_loop h sp name st rest : forall l, Forall (expr_spec h) l -> all_wp l -> forall vs0,
   let st0 := (sFL, SVtok [40]) :: (sF, SVtok name) :: st in
   reachle h (sum_with xsteps l) ((qSC sp, SVseq vs0) :: st0, seq_toks sp xtoks l ++ Tok T_RPAREN [41] :: rest)
@@ -484,27 +578,17 @@ Lemma args_loop h sp name st rest : forall l, Forall (expr_spec h) l -> all_wp l
     (tgt (fun ws => ((qSC sp, SVseq (vs0 ++ ws)) :: st0, Tok T_RPAREN [41] :: rest)) (fst (xvals (xval h) l))).
 Proof.
   destruct (F_sep sp) as (HESC & HctxC & _ & HgoSC & HshC & HredC1 & HredC2 & _ & HgoC & _ & PCC & _ & _ & Hterm).
-  induction l as [|b l IH]; intros HF Hwp vs0 st0.
-  - change (seq_toks sp xtoks []) with (@nil token). change (xvals (xval h) []) with (@ROk (list value) [], @nil event).
-    cbn [fst snd tgt app]. rewrite app_nil_r. apply rl_here.
-  - inversion HF as [|? ? Hb HF']; subst. destruct Hwp as [Hwb Hwl].
-    rewrite seq_toks_cons, xvals_cons, sum_with_cons. cbn [app]. rewrite <- app_assoc.
-    eapply rl_weaken with (N := S (xsteps b + (1 + sum_with xsteps l))); [lia|].
-    eapply rl_shift; [exact HshC|]. cbn [lexeme sep_tok].
-    eapply (rl_bind h (xval h b) _ _ (fun w => ((qC sp, SVval w) :: (sC sp, SVtok (sep_lex sp)) :: (qSC sp, SVseq vs0) :: st0, seq_toks sp xtoks l ++ Tok T_RPAREN [41] :: rest))).
-    + apply Hb; cbn [top_state]; auto.
-      * unfold xenter_ok, enters. rewrite HctxC. destruct (xtop b); exact I.
-      * left. destruct l; [|rewrite seq_toks_cons]; cbn [app la tk sep_tok]; [apply term_rparen|exact Hterm].
-    + intros w _.
-      assert (act_of (qC sp) (la (seq_toks sp xtoks l ++ Tok T_RPAREN [41] :: rest)) = Some (Reduce (iSeqCC sp))) as Hact
-        by (destruct l; [|rewrite seq_toks_cons]; cbn [app la tk sep_tok]; assumption).
-      eapply rl_pure; [exact Hact|exact PCC|apply pop3|apply seq_action_3|exact HgoSC|].
-      eapply rl_weaken with (N := (sum_with xsteps l + 0)%nat); [lia|].
-      eapply (rl_bind h (xvals (xval h) l) (fun vs => (ROk (w :: vs), [])) _
-                (fun ws => ((qSC sp, SVseq ((vs0 ++ [w]) ++ ws)) :: st0, Tok T_RPAREN [41] :: rest))
-                (fun ws => ((qSC sp, SVseq (vs0 ++ ws)) :: st0, Tok T_RPAREN [41] :: rest)) _ 0).
-      * apply IH; assumption.
-      * intros ws _. cbn [fst snd tgt]. rewrite <- app_assoc. cbn [app]. apply rl_here.
+  intros l HF Hwp vs0 st0. apply (seq_loop h sp sFL (qSC sp) (sC sp) (qC sp) (iSeqCC sp) (Tok T_RPAREN [41])); auto. apply term_rparen.
+Qed.
+Lemma arr_loop h sp st rest : forall l, Forall (expr_spec h) l -> all_wp l -> forall vs0,
+  let st0 := (sB, SVtok [123]) :: st in
+  reachle h (sum_with xsteps l) ((bqSC sp, SVseq vs0) :: st0, seq_toks sp xtoks l ++ Tok T_RBRACKET [125] :: rest)
+    (snd (xvals (xval h) l))
+    (tgt (fun ws => ((bqSC sp, SVseq (vs0 ++ ws)) :: st0, Tok T_RBRACKET [125] :: rest)) (fst (xvals (xval h) l))).
+Proof.
+  destruct (F_arr_sep sp) as (HESC & HctxC & _ & HgoSC & HshC & HredC1 & HredC2 & _ & HgoC & _ & PCC & _).
+  destruct (F_sep sp) as (_ & _ & _ & _ & _ & _ & _ & _ & _ & _ & _ & _ & _ & Hterm). destruct F_arr as (_ & _ & _ & _ & _ & _ & _ & _ & _ & _ & Hcl).
+  intros l HF Hwp vs0 st0. apply (seq_loop h sp sB (bqSC sp) (bsC sp) (bqC sp) (bSeqCC sp) (Tok T_RBRACKET [125])); auto.
 Qed.
 
 Lemma pop4 s1 v1 s2 v2 s3 v3 s4 v4 st :
@@ -522,7 +606,7 @@ Proof.
   destruct P_closed as (PVS & PVar & PCellE & PCall0 & PSeq1 & PSeq1fn & PCall1).
   destruct F_call as (HshFL & HESFL & HctxA1 & HshF0 & HredSeq1 & HgoSeq1 & HshSeq1R & HgoFL).
   destruct F_lit_closed as (LsAD & LsADN & LsAP & LsAC & LsACN & LsDN & PStr & PXl & PDec & PPct & PPow & PFrac).
-  induction e as [d|ip fp|fp|pn|pa pb|str|xe|n|k lab|k1 l1 k2 l2|sp name args IHargs|e IH|b l r IHl IHr|e IH] using expr_ind';
+  induction e as [d|ip fp|fp|pn|pa pb|str|xe|n|k lab|k1 l1 k2 l2|sp name args IHargs|sp items IHitems|e IH|b l r IHl IHr|e IH] using expr_ind';
     intros Hwp st rest q HES Hgo Hent Hfol; pose proof (xfollow_follow _ _ Hfol) as Hfw;
     try (destruct (F_lit_shift _ HES) as (ShS & ShX & ShD)); try (destruct (F_lit_red _ Hfw) as (RS & RX & RDec & RPct & RPow & RFrac)).
   - (* number *)
@@ -633,6 +717,44 @@ Proof.
            unfold sem_action. destruct (call_function h name vs); reflexivity.
         -- eapply (rl_final h _ _ _ _ _ _ _ _ _ q (call_function h name vs)); [apply F_callN_red; exact Hfw|exact PCallN|apply pop4|exact Hgo|].
            unfold sem_action. destruct (call_function h name vs); reflexivity.
+  - (* array literal *)
+    cbn [xwp] in Hwp. destruct items as [|a r]; [contradiction|]. change (all_wp (a :: r)) in Hwp. destruct Hwp as [Hwa Hwr].
+    inversion IHitems as [|? ? Ha Hr]; subst.
+    destruct F_arr as (HESB & HctxB & HgoB & HredB1 & PB1 & PB1fn & HgoB1 & HshB1 & PArr1 & PArrE & HtermB).
+    destruct (F_arr_sep sp) as (HESC & HctxC & HredSeqC & HgoSC & HshC & HredC1 & HredC2 & HshCN & HgoC & PSeqC & PSeqCC & PArrN).
+    destruct (F_sep sp) as (_ & _ & _ & _ & _ & _ & _ & _ & _ & _ & _ & _ & Hsfn & Hterm).
+    destruct (F_arr_es _ HES) as [HshB HgoArr]. destruct (F_arr_red sp _ Hfw) as (RArr1 & RArrN & RArrE).
+    cbn [xtoks xval xsteps]. cbn [app].
+    eapply rl_shift; [exact HshB|]. cbn [lexeme].
+    set (st0 := (sB, SVtok [123]) :: st).
+    cbn [args_toks]. rewrite <- !app_assoc. rewrite sum_with_cons.
+    change ([Tok T_RBRACKET [125]] ++ rest) with (Tok T_RBRACKET [125] :: rest).
+    eapply rl_weaken with (N := ((xsteps a + 1 + sum_with xsteps r) + 3)%nat); [lia|].
+    eapply (rl_bind h (xvals (xval h) (a :: r)) (fun vs => (ROk (VList vs), [])) _
+              (fun vs => ((match r with [] => bqSeq1 | _ => bqSC sp end, SVseq vs) :: st0, Tok T_RBRACKET [125] :: rest))).
+    + rewrite xvals_cons.
+      eapply rl_weaken with (N := (xsteps a + (1 + sum_with xsteps r))%nat); [lia|].
+      eapply (rl_bind h (xval h a) _ _ (fun v => ((bA1, SVval v) :: st0, seq_toks sp xtoks r ++ Tok T_RBRACKET [125] :: rest))).
+      * apply (Ha Hwa); cbn [top_state st0]; auto.
+        -- unfold xenter_ok, enters. rewrite HctxB. destruct (xtop a); exact I.
+        -- left. destruct r; [|rewrite seq_toks_cons]; cbn [app la tk sep_tok]; [exact HtermB|exact Hterm].
+      * intros v _. destruct r as [|b r'].
+        -- change (seq_toks sp xtoks []) with (@nil token). change (xvals (xval h) []) with (@ROk (list value) [], @nil event).
+           cbn [app ebind fst snd tgt sum_with].
+           eapply rl_pure; [exact HredB1|exact PB1|apply pop1|apply seq_action_1; exact PB1fn|exact HgoB1|apply rl_here].
+        -- eapply rl_weaken with (N := S (sum_with xsteps (b :: r') + 0)); [lia|].
+           eapply rl_pure; [rewrite seq_toks_cons; cbn [app la tk sep_tok]; exact HredSeqC|exact PSeqC|apply pop1|apply seq_action_1; exact Hsfn|exact HgoSC|].
+           eapply (rl_bind h (xvals (xval h) (b :: r')) (fun vs => (ROk (v :: vs), [])) _
+                     (fun ws => ((bqSC sp, SVseq ([v] ++ ws)) :: st0, Tok T_RBRACKET [125] :: rest))).
+           ++ apply (arr_loop h sp st rest (b :: r') (forall_spec h _ Hr Hwr) Hwr [v]).
+           ++ intros ws _. cbn [fst snd tgt app]. apply rl_here.
+    + intros vs _. cbn [fst snd tgt].
+      eapply rl_shift with (q := match r with [] => bClose1 | _ => bCloseN sp end); [destruct r; cbn [top_state]; assumption|]. cbn [lexeme].
+      destruct r as [|b r'].
+      * eapply rl_pure; [exact RArr1|exact PArr1|apply pop3|reflexivity|exact HgoArr|].
+        eapply rl_pure; [exact RArrE|exact PArrE|apply pop1|reflexivity|exact Hgo|apply rl_here].
+      * eapply rl_pure; [exact RArrN|exact PArrN|apply pop3|reflexivity|exact HgoArr|].
+        eapply rl_pure; [exact RArrE|exact PArrE|apply pop1|reflexivity|exact Hgo|apply rl_here].
   - (* unary minus *)
     destruct Hwp as [Hwp Htop]. cbn [xtoks xval xsteps app].
     eapply rl_shift; [apply H_neg_shift; exact HES|]. cbn [lexeme].
@@ -719,10 +841,12 @@ Proof.
 Qed.
 Lemma xsteps_bound e : (xsteps e <= 4 * length (xtoks e))%nat.
 Proof.
-  induction e as [d|ip fp|fp|pn|pa pb|str|xe|n|k lab|k1 l1 k2 l2|sp name args IHargs|e IH|b l r IHl IHr|e IH] using expr_ind';
+  induction e as [d|ip fp|fp|pn|pa pb|str|xe|n|k lab|k1 l1 k2 l2|sp name args IHargs|sp items IHitems|e IH|b l r IHl IHr|e IH] using expr_ind';
     cbn [xsteps xtoks length]; rewrite ?app_length; cbn [length]; try lia.
-  destruct args as [|a r]; [cbn; lia|]. inversion IHargs as [|? ? Ha Hr]; subst.
-  rewrite sum_with_cons. cbn [args_toks]. rewrite app_length. pose proof (sum_bound sp r Hr). lia.
+  - destruct args as [|a r]; [cbn; lia|]. inversion IHargs as [|? ? Ha Hr]; subst.
+    rewrite sum_with_cons. cbn [args_toks]. rewrite app_length. pose proof (sum_bound sp r Hr). lia.
+  - destruct items as [|a r]; [cbn; lia|]. inversion IHitems as [|? ? Ha Hr]; subst.
+    rewrite sum_with_cons. cbn [args_toks]. rewrite app_length. pose proof (sum_bound sp r Hr). lia.
 Qed.
 
 Definition record_of (r : res value) : precord :=
